@@ -618,6 +618,9 @@ func (t *Truncate) makeString(sb *strings.Builder) {
 		sb.WriteString(" BEFORE ")
 		sb.WriteString(t.Before.String())
 	}
+	if t.MaxDbSize != nil {
+		sb.WriteString(fmt.Sprintf(" MAXDBSIZE %d", uint64(*t.MaxDbSize)))
+	}
 }
 
 // === Show
